@@ -279,7 +279,9 @@ namespace {
       {
          noise();
          auto kind = t.at(0).as_str();
-         if (kind == "expr") return *located(lex.make_expr_stmt(*lex.make_literal(lex.int_type(), u8"1")));
+         // (the literal carries a code unit that the printer writes as an octal escape: whatever it does to the stream for that
+         //  must not show in the numbers of the locations printed after it)
+         if (kind == "expr") return *located(lex.make_expr_stmt(*lex.make_literal(lex.int_type(), u8"1\2")));
          if (kind == "decl") {
             // variables of varied types, so that the type productions (and the order in which products and sums list their
             // members) are part of every program
